@@ -10,6 +10,7 @@ documented action range).
 import JumanjiModel.Env.MultiCVRP.Lemmas
 import JumanjiModel.Env.MultiCVRP.History
 import JumanjiModel.Env.MultiCVRP.Bounds
+import JumanjiModel.Env.MultiCVRP.ReturnLemmas
 open Jm MultiCVRP
 
 /-- a non-trivial state (3 customers, 2 vehicles of capacity 5, after one step): vehicle 0 has served
@@ -211,6 +212,74 @@ theorem multicvrp_sparse_reward (c : Cfg) (D : Dist) (s : State) (a : List Nat) 
          (if timedOut c (step id c D s a).1 then worstCase D (step id c D s a).1
           else accumulated (step id c D s a).1)
        else 0] := MultiCVRP.sparse_reward c D s a hd
+/-! #### accumulators vs recorded routes, whole episodes (exact arithmetic) -/
+
+/-- a 2-customer instance for the examples below: unit-ish triangle, 2 vehicles of capacity 5 -/
+def exDraw : Draw :=
+  { coords := [[0, 0], [1, 0], [0, 1]], scaled := [0, 2, 3], winStart := [0, 0, 0],
+    coefEarly := [0, 1, 1], coefLate := [0, 1, 2] }
+def exCfg : Cfg := { numCustomers := 2, maxCap := 5, dense := true }
+def exD : Dist := [[0, 1, 1], [1, 0, 7/5], [1, 7/5, 0]]
+/-- the reset state of that instance (customer demands 2 and 3, windows `[0, 1/2]`) -/
+def exS0 : State := (reset exCfg 2 4 (1/2) exDraw).1
+
+/-- `reset` establishes the accumulators-vs-routes invariant `AccInv` (every accumulator of the state is the
+quantity recomputed from the recorded routes), for any number of vehicles and any draw whose window and
+coefficient arrays have one entry per node -/
+theorem multicvrp_reset_accInv (c : Cfg) (D : Dist) (nV : Nat) (demandMax : Int) (windowLen : Rat) (d : Draw)
+    (hn : 1 ≤ c.numCustomers) (hw : d.winStart.length = d.scaled.length)
+    (he : d.coefEarly.length = d.scaled.length) (hl : d.coefLate.length = d.scaled.length) :
+    AccInv c D (reset c nV demandMax windowLen d).1 :=
+  MultiCVRP.generate_accInv c D nV demandMax windowLen d hn hw he hl
+
+/-- every step with an in-spec joint action (legal or not), either reward function, taken while the history is
+still recorded (`stepCount < 2·num_customers`, i.e. the successor has not timed out) preserves `AccInv` -/
+theorem multicvrp_step_accInv (c : Cfg) (D : Dist) (s : State) (a : List Nat) (h : AccInv c D s)
+    (hl : a.length = s.capacities.length) (hr : ∀ x ∈ a, x < s.demands.length)
+    (hrec : s.stepCount < 2 * c.numCustomers) : AccInv c D (step id c D s a).1 :=
+  MultiCVRP.update_accInv c D s a h hl hr hrec
+
+/-- what `AccInv` says: `distances[v] = local_times[v] = pathLen (route v)`, `time_penalties[v]` = the penalties
+collected along `route v`, and the accumulated objective is the documented objective recomputed from the routes -/
+theorem multicvrp_accumulators_are_routes (c : Cfg) (D : Dist) (s : State) (h : AccInv c D s) :
+    s.distances = (routes s).map (pathLen D) ∧ s.localTimes = (routes s).map (pathLen D) ∧
+    s.timePenalties = (routes s).map (routePenalty D s 0) ∧ accumulated s = objective D s := by
+  refine ⟨MultiCVRP.accInv_distances h, ?_, MultiCVRP.accInv_penalties h, MultiCVRP.accInv_objective h⟩
+  apply MultiCVRP.ext_getD _ _ 0 (by rw [List.length_map, MultiCVRP.routes_length h, h.nTimes])
+  intro v hv
+  rw [h.nTimes] at hv
+  rw [h.times v hv, MultiCVRP.getD_map_lt _ _ _ _ [] (by rw [MultiCVRP.routes_length h]; exact hv)]
+
+/-- `AccInv` holds at the end of every in-spec run from a state with `AccInv` that stays within the recorded
+history -/
+theorem multicvrp_accInv_along (c : Cfg) (D : Dist) (s : State) (as : List (List Nat)) (h : AccInv c D s)
+    (he : Episode c D s as) (hlim : s.stepCount + as.length ≤ 2 * c.numCustomers) :
+    AccInv c D (finalState c D s as) := MultiCVRP.finalState_accInv c D s as h he hlim
+
+/-- whole episode: for a complete episode of in-spec joint actions from a reset state (`Episode`: the last step
+and only the last step is LAST) that ends before the step limit, the sum of the dense rewards = the sum of the
+sparse rewards = the documented objective (minus total distance, minus all time penalties) recomputed from the
+routes recorded in the final state.  (The state evolution does not depend on the reward function.) -/
+theorem multicvrp_dense_eq_sparse_eq_objective (c : Cfg) (D : Dist) (nV : Nat) (demandMax : Int)
+    (windowLen : Rat) (d : Draw) (as : List (List Nat)) (hn : 1 ≤ c.numCustomers)
+    (hw : d.winStart.length = d.scaled.length) (hce : d.coefEarly.length = d.scaled.length)
+    (hcl : d.coefLate.length = d.scaled.length)
+    (he : Episode c D (reset c nV demandMax windowLen d).1 as)
+    (ht : timedOut c (finalState c D (reset c nV demandMax windowLen d).1 as) = false) :
+    retOf { c with dense := true } D (reset c nV demandMax windowLen d).1 as =
+      objective D (finalState c D (reset c nV demandMax windowLen d).1 as) ∧
+    retOf { c with dense := false } D (reset c nV demandMax windowLen d).1 as =
+      objective D (finalState c D (reset c nV demandMax windowLen d).1 as) :=
+  MultiCVRP.episode_return c D nV demandMax windowLen d as hn hw hce hcl he ht
+
+/-- the hypotheses are satisfiable: vehicle 0 serves customer 1, vehicle 1 customer 2, both return; the episode is
+complete, ends at step count 3 ≤ 4, and both returns are −(2 + 2) − (1/2·1 + 1/2·2) = −11/2 -/
+example : Episode exCfg exD exS0 [[1, 2], [0, 0]] ∧ timedOut exCfg (finalState exCfg exD exS0 [[1, 2], [0, 0]]) = false ∧
+    retOf { exCfg with dense := true } exD exS0 [[1, 2], [0, 0]] = -11/2 ∧
+    retOf { exCfg with dense := false } exD exS0 [[1, 2], [0, 0]] = -11/2 ∧
+    objective exD (finalState exCfg exD exS0 [[1, 2], [0, 0]]) = -11/2 := by decide +kernel
+example : AccInv exCfg exD exS0 :=
+  multicvrp_reset_accInv exCfg exD 2 4 (1/2) exDraw (by decide) (by decide) (by decide) (by decide)
 end Props.C08
 
 namespace Props.C10
@@ -253,4 +322,9 @@ theorem multicvrp_obs_faithful (rnd : Rat → Rat) (c : Cfg) (D : Dist) (s : Sta
     (hc : s.coords.length = s.demands.length) :
     (step rnd c D s a).2.obs = observe (step rnd c D s a).1 :=
   MultiCVRP.obs_faithful rnd c D s a hl hr hc
+/-- the observation returned by `reset` is the documented function of the reset state, for every configuration,
+number of vehicles and draw -/
+theorem multicvrp_reset_obs_faithful (c : Cfg) (nV : Nat) (demandMax : Int) (windowLen : Rat) (d : Draw) :
+    (reset c nV demandMax windowLen d).2.obs = observe (reset c nV demandMax windowLen d).1 :=
+  MultiCVRP.reset_obs_faithful c nV demandMax windowLen d
 end Props.C12
